@@ -456,8 +456,63 @@ func genBezoutNearTouch(t *rapid.T) Case {
 	return c
 }
 
+// genRaggedCollinear: four points exactly on a line y = m*x (or x = m*y) through the
+// origin with a small whole m, whose abscissae are 30-to-44-bit whole numbers of units
+// that differ by up to a hundred binades: every point is exactly on the line (m*x is
+// exact), yet no difference of two ordinates is representable, so differences computed
+// in float64 are no longer proportional. Ends are shared by value in most cases - the
+// second segment starts or ends at an end of the first - so that the pair touches at
+// the shared vertex, or overlaps from it on, depending only on the sides.
+func genRaggedCollinear(t *rapid.T) Case {
+	m := float64(rapid.SampledFrom([]int{3, 1, 2, -3, 5, -1, 7}).Draw(t, "rm"))
+	absc := func(l string) float64 {
+		j := float64(rapid.Int64Range(1<<30, 1<<44).Draw(t, l+"j") | 1)
+		e := rapid.SampledFrom([]int{-80, -25, -27, -78, -60, -40, 0}).Draw(t, l+"e")
+		if rapid.IntRange(0, 3).Draw(t, l+"neg") == 0 {
+			j = -j
+		}
+		return math.Ldexp(j, e)
+	}
+	var x [4]float64
+	for i := range x {
+		x[i] = absc(fmt.Sprintf("rx%d", i))
+	}
+	if x[1] == x[0] {
+		x[1] = 2 * x[0]
+	}
+	switch rapid.IntRange(0, 5).Draw(t, "rshare") {
+	case 0:
+		x[2] = x[0]
+	case 1:
+		x[3] = x[0]
+	case 2:
+		x[2] = x[1]
+	case 3:
+		x[3] = x[1]
+	}
+	if x[3] == x[2] {
+		x[3] = x[2] / 2
+	}
+	var c Case
+	swap := rapid.Bool().Draw(t, "raxes")
+	for i := range x {
+		px, py := x[i], m*x[i]
+		if swap {
+			px, py = py, px
+		}
+		c.P[i] = [2]model.F{model.Of(px), model.Of(py)}
+	}
+	c.Class = "ragged-collinear"
+	return c
+}
+
 func genCase(t *rapid.T) Case {
 	var c Case
+	if rapid.IntRange(0, 19).Draw(t, "ragged") == 11 {
+		c = genRaggedCollinear(t)
+		c.Extra = rapid.SampledFrom([]int{0, 0, 1, 2, 3}).Draw(t, "extra")
+		return c
+	}
 	if rapid.IntRange(0, 19).Draw(t, "bezout") == 7 {
 		c = genBezoutNearTouch(t)
 		c.Extra = rapid.SampledFrom([]int{0, 0, 1, 2, 3}).Draw(t, "extra")
